@@ -11,11 +11,15 @@ var triviaChoices = []string{"", "", " ", " ", "  ", "\t", "\n", "\r\n", " ;c\n"
 	// comment bodies with tabs, control characters, CR and other blanks followed by chord-like text
 	// comments without text (the comment ends at its own line break, whatever follows)
 	";\n", " ; \t\n", ";\r\n", ";\n;\n\n", "\n;\n", ";;\n",
-	";was:\tD_7[2]\n", " ;\x01\x7f ctl E[1]\n", "; nb\u00a0sp F[1]{a=b}\n", ";cr\rC[9]\n", ";\u2028ls G[1]\n", ";\x00nul A[1]\n"}
+	";was:\tD_7[2]\n", " ;\x01\x7f ctl E[1]\n", "; nb\u00a0sp F[1]{a=b}\n", ";cr\rC[9]\n", ";\u2028ls G[1]\n", ";\x00nul A[1]\n",
+	// bytes that other systems read as an end of input (^Z of DOS, ^D, escape, ^C) are ordinary comment text
+	";eof\x1a B[1]\n", " ;\x04\x1b\x03 D[2]\n", ";\x1a\n"}
 
 var metaLexemes = []string{";-)", ";k", "７", "k", "key", "Am", "txt", "a b", "x;y", "120", "v w  x", "5/4", "ff", "日本語", "tail", "semi;colon", "new\nline", "[1]", "C_7/E", "-", "é😀", "#", "b"}
 
-var freeSymbols = []string{"７", "m٣", "m", "dim", "maj7", "aug", "sus4", "M7", "m7b5", "add9", "mM7", "m7", "o", "ø7", "(b9)", "+", "-5", "maj7#11", "mb5", "sus", "Δ", "x]y", "{q", "a,b", "}"}
+var freeSymbols = []string{"７", "m٣", "m", "dim", "maj7", "aug", "sus4", "M7", "m7b5", "add9", "mM7", "m7", "o", "ø7", "(b9)", "+", "-5", "maj7#11", "mb5", "sus", "Δ", "x]y", "{q", "a,b", "}",
+	// runes that look like an accidental sign but are not one: part of the symbol, with or without the underscore
+	"＃m7", "＃", "♮7", "ｂ5", "𝄪", "𝄫9", "﹟11"}
 
 // bareSymbols are the free symbols that lex as one SYMBOL without a leading underscore.
 var bareSymbols = func() []string {
@@ -169,6 +173,30 @@ func joinTokens(toks []grammar.Token, r *rand.Rand, trivia bool) string {
 		}
 	}
 	return s
+}
+
+// joinTokensSep renders the chords without trivia inside them and with the given separator between them.
+func joinTokensSep(toks []grammar.Token, sep string) string {
+	var b strings.Builder
+	start := 0
+	for i := range toks {
+		end := i == len(toks)-1
+		switch toks[i].Kind {
+		case "RCBRA":
+			end = true
+		case "RBRA":
+			end = i+1 >= len(toks) || toks[i+1].Kind != "LCBRA"
+		}
+		if !end {
+			continue
+		}
+		if start > 0 {
+			b.WriteString(sep)
+		}
+		b.WriteString(joinChord(toks[start:i+1], nil, false))
+		start = i + 1
+	}
+	return b.String()
 }
 
 // joinChord renders the tokens of one chord or rest.
